@@ -12,7 +12,7 @@ from mc.result import Result
 
 PROPERTY = 'C05'
 LEVEL = 'exploration'
-CASE_GUARD_S = 3600  # a case is a composite (one block of expressions x all texts ...)
+CASE_GUARD_S = {'quick': 300, 'thorough': 3600}  # a case is a composite (a block of expressions x all texts, ...)
 CHUNK = 4
 RULE = {
     'quick': 'every text of length <= 4 over {a,B,space,newline,.} (781) plus boundary texts for the equals read-ahead and buffer '
